@@ -142,12 +142,14 @@ func init() {
 	registry["C01"] = &Property{
 		Quick: []HarnessSpec{c01(1, 1, 0x80, 0, 300), c01(1, 0, 0x40, 0, 300), c01(2, 1, 0x80, 3, 600),
 			{Name: "VC01_MultiReadAt", Params: map[string]int{"vsymC01Parts": 2}, TimeoutSec: 300, NeedReach: []string{"end"}},
-			{Name: "VC01_Coverage", MaxDecisions: 2000, TimeoutSec: 300, NeedReach: []string{"covered", "excluded", "end"}}},
-		Thorough: []HarnessSpec{c01(0, 1, 0x80, 0, 600), c01(1, 1, 0x80, 0, 600), c01(1, 0, 0x40, 0, 600), c01(1, 1, 0xf8, 0, 600), c01(2, 1, 0x80, 0, 900), c01(2, 0, 0x80, 0, 900), c01(3, 1, 0x80, 1, 1200),
+			{Name: "VC01_Coverage", MaxDecisions: 2000, TimeoutSec: 300, NeedReach: []string{"covered", "excluded", "end"}},
+			{Name: "VC01_DigestIgnoresHistory", MaxDecisions: 2000, TimeoutSec: 300, NeedReach: []string{"end"}}},
+		Thorough: []HarnessSpec{c01(0, 1, 0x80, 0, 600), c01(1, 1, 0x80, 0, 600), c01(1, 0, 0x40, 0, 600), c01(1, 1, 0xf8, 0, 600), c01(2, 1, 0x80, 0, 900), c01(2, 0, 0x80, 0, 900),
 			{Name: "VC01_MultiReadAt", Params: map[string]int{"vsymC01Parts": 3}, TimeoutSec: 600, NeedReach: []string{"end"}},
-			{Name: "VC01_Coverage", MaxDecisions: 2000, TimeoutSec: 600, NeedReach: []string{"covered", "excluded", "end"}}},
-		Bounds: []string{"symbolic image: length <= 2^24 and every byte symbolic; SizeOfHeaders, every section's PointerToRawData/SizeOfRawData (any header order, zero-size sections, gaps), certificate directory (absent or at the end, 8-aligned), trailing data and file length mod 8 all symbolic",
-			"shape (enumerated): sections 1..2 (quick; the two-section shape with raw data in both and no certificate table) / 0..3 (thorough), PE32 and PE32+, NumberOfRvaAndSizes=16, e_lfanew in {0x40,0x80} (quick) + 0xf8 (thorough), machine AMD64",
+			{Name: "VC01_Coverage", MaxDecisions: 2000, TimeoutSec: 600, NeedReach: []string{"covered", "excluded", "end"}},
+			{Name: "VC01_DigestIgnoresHistory", MaxDecisions: 2000, TimeoutSec: 300, NeedReach: []string{"end"}}},
+		Bounds: []string{"history independence (shipped image): its digest before and after another image with a 13-byte certificate and arbitrary alignment bytes has been parsed, listed, re-serialised and hashed in the same process", "symbolic image: length <= 2^24 and every byte symbolic; SizeOfHeaders, every section's PointerToRawData/SizeOfRawData (any header order, zero-size sections, gaps), certificate directory (absent or at the end, 8-aligned), trailing data and file length mod 8 all symbolic",
+			"shape (enumerated): sections 1..2 (quick; the two-section shape with raw data in both and no certificate table) / 0..2 in all variants (thorough), PE32 and PE32+, NumberOfRvaAndSizes=16, e_lfanew in {0x40,0x80} (quick) + 0xf8 (thorough), machine AMD64",
 			"positional reader lemma: 2 (quick) / 3 parts of symbolic content and size <= 2^20 each, any offset <= 2^23 and request length <= 2^22",
 			"coverage on the shipped test image (unsigned and with an appended table): one byte changed, position symbolic within each 512-byte section window / every checksum byte / every 4th table byte, value symbolic: digest changes iff covered",
 			"oracle: SHA-256 of the byte string of steps 3-14 of the Microsoft Authenticode specification, built in the harness from the raw bytes (not through debug/pe); equality decided through the hash model (functional consistency) and structural equality of the two byte strings"},
@@ -288,19 +290,21 @@ func init() {
 	}
 	registry["C02"] = &Property{
 		Quick:    []HarnessSpec{{Name: "VC02_SignedImage", Params: map[string]int{"vsymC02Stride": 64, "vsymC02Regions": 3}, MaxDecisions: 2000, TimeoutSec: 600, NeedReach: []string{"complete", "end"}}},
-		Thorough: []HarnessSpec{{Name: "VC02_SignedImage", Params: map[string]int{"vsymC02Stride": 8, "vsymC02Regions": 4}, MaxDecisions: 4000, MaxPaths: 400000, TimeoutSec: 1800, NeedReach: []string{"complete", "end"}}},
+		Thorough: []HarnessSpec{{Name: "VC02_SignedImage", Params: map[string]int{"vsymC02Stride": 8, "vsymC02Regions": 3}, MaxDecisions: 4000, MaxPaths: 400000, TimeoutSec: 1500, NeedReach: []string{"complete", "end"}}},
 		Bounds: []string{"the shipped unsigned test image (concrete, 3825 bytes, 5 sections), signed by the library under the signature model with a symbolic serial; verified against the signer (must succeed), against another key under the same issuer and serial, and against an unrelated certificate (must not)",
-			"single-byte changes with symbolic value: every position of the section data (position symbolic per 512-byte window); each of the 32 bytes of the embedded image digest; issuer/serial bytes (all), signed-attribute bytes (stride 8) and signature bytes (stride 64) inside the SignerInfo; thorough adds sampled header bytes and the symbol-table window and stride 1/8",
+			"single-byte changes with symbolic value: every position of the section data (position symbolic per 512-byte window); each of the 32 bytes of the embedded image digest; the composed forgery (a section byte changed, the embedded digest rewritten to the changed image's digest, the SignerInfo digest algorithm optionally relabelled to SHA-384); issuer/serial bytes (all), signed-attribute bytes (stride 8) and signature bytes (stride 64) inside the SignerInfo; thorough uses stride 1 (attributes) / 8 (signature)",
 			"decided: Verify(cert) is not true for any of these mutants (collision resistance of SHA-256 stated exactly for equal-length inputs; unforgeability of the signature model)"},
 		Outside:     []string{"multi-byte edits other than those composed by C04's unit harness", "images other than the fixture (C01 shows the digest is the specification's for symbolic images)", "unauthenticated parts of the blob (certificate bag, versions, algorithm identifiers): changes there may still verify and are not asserted", "header-byte mutations that redirect debug/pe into symbolic offsets of the concrete image are reported as unsupported paths, not as held"},
 		Assumptions: append([]string{"signature model: only signatures produced by Sign on the path verify; all certificates are issued by one test CA (issuer name CN=<7 symbolic letters>, identical natively); certificates for different keys differ in serial unless made by CertSameID", "SHA-256 model with functional consistency and collision resistance (exact between inputs of equal concrete length; inputs of different lengths have different digests)"}, commonAssumptions...),
 	}
 	registry["C04"] = &Property{
 		Quick: []HarnessSpec{{Name: "VC04_VerifySound", Params: map[string]int{"vsymC04Signers": 2}, MaxDecisions: 2000, TimeoutSec: 600, NeedReach: []string{"honest-verifies", "accepted", "rejected", "end"}},
-			{Name: "VC04_AttributeBytes", MaxDecisions: 2000, NeedReach: []string{"end"}}},
+			{Name: "VC04_AttributeBytes", MaxDecisions: 2000, NeedReach: []string{"end"}},
+			{Name: "VC04_ParsedBlobBinding", MaxDecisions: 2000, NeedReach: []string{"end"}}},
 		Thorough: []HarnessSpec{{Name: "VC04_VerifySound", Params: map[string]int{"vsymC04Signers": 3}, MaxDecisions: 4000, MaxPaths: 2000000, TimeoutSec: 3600, NeedReach: []string{"honest-verifies", "accepted", "rejected", "end"}},
-			{Name: "VC04_AttributeBytes", MaxDecisions: 2000, NeedReach: []string{"end"}}},
-		Bounds: []string{"thorough tier: 1..3 signer entries", "attribute bytes: the three standard attributes signed in any of the 6 orders and placed in the blob (built by the reference encoder, content attached) in any of the 6 orders: Verify is true iff the orders agree",
+			{Name: "VC04_AttributeBytes", MaxDecisions: 2000, NeedReach: []string{"end"}},
+			{Name: "VC04_ParsedBlobBinding", MaxDecisions: 2000, NeedReach: []string{"end"}}},
+		Bounds: []string{"thorough tier: 1..3 signer entries", "DER level: a pkcs7-data blob in the third-party producer language with attached content (4 symbolic bytes) other than the content that was digested and signed parses but does not verify; the honest one verifies", "attribute bytes: the three standard attributes signed in any of the 6 orders and placed in the blob (built by the reference encoder, content attached) in any of the 6 orders: Verify is true iff the orders agree",
 			"unit level: the parsed SignedData is arbitrary — 1..2 signer entries with symbolic issuer, serial, content type, 32-byte message digest and 256-byte signature; encapsulated content present or absent with symbolic bytes; the honest key has produced one real signature (SignPKCS7) that the adversary may reuse",
 			"decided: Verify(cert) = true only if some entry names the certificate, its signature is valid under the certificate's key over that entry's attribute SET, and (content encapsulated) its message digest equals SHA-256 of the content; completeness: the honest blob parses and verifies"},
 		Outside:     []string{"byte-level edits of real blobs (covered for the Authenticode blob by C02)", "attribute edits other than permutation (duplication, removal: they change the signed bytes in the same way)", "EFIVariableAuthentication2.Verify entry point (thin wrapper)"},
@@ -313,20 +317,22 @@ func init() {
 			{Name: "VC13_HeaderFields", Params: map[string]int{"vsymC13Field": -2}, MaxDecisions: 3000, MaxPaths: 20000, TimeoutSec: 600, NeedReach: []string{"parsed", "rejected", "end"}},
 			{Name: "VC13_CertificateTable", Params: map[string]int{"vsymC13Table": 24}, ConcAlloc: true, MaxDecisions: 2000, NeedReach: []string{"end"}},
 			{Name: "VC13_NoAttributes", NeedReach: []string{"end"}},
+			{Name: "VC13_AttributeShapes", NeedReach: []string{"end"}},
 			{Name: "VC13_SmallDER", Params: map[string]int{"vsymC13Max": 12}, MaxDecisions: 2000, MaxPaths: 400000, TimeoutSec: 300, NeedReach: []string{"end"}},
 			{Name: "VC13_BlobByte", Params: map[string]int{"vsymC13Stride": 64}, MaxDecisions: 2000, TimeoutSec: 400, NeedReach: []string{"end"}},
 		},
 		Thorough: []HarnessSpec{
-			{Name: "VC13_HeaderFields", Params: map[string]int{"vsymC13Field": 0}, MaxDecisions: 6000, MaxPaths: 200000, TimeoutSec: 900, NeedReach: []string{"parsed", "end"}},
-			{Name: "VC13_HeaderFields", Params: map[string]int{"vsymC13Field": 2}, MaxDecisions: 6000, MaxPaths: 200000, TimeoutSec: 900, NeedReach: []string{"parsed", "end"}},
-			{Name: "VC13_HeaderFields", Params: map[string]int{"vsymC13Field": -2}, MaxDecisions: 6000, MaxPaths: 200000, TimeoutSec: 900, NeedReach: []string{"parsed", "rejected", "end"}},
+			{Name: "VC13_HeaderFields", Params: map[string]int{"vsymC13Field": 0}, MaxDecisions: 6000, MaxPaths: 200000, TimeoutSec: 600, NeedReach: []string{"parsed", "end"}},
+			{Name: "VC13_HeaderFields", Params: map[string]int{"vsymC13Field": 2}, MaxDecisions: 6000, MaxPaths: 200000, TimeoutSec: 600, NeedReach: []string{"parsed", "end"}},
+			{Name: "VC13_HeaderFields", Params: map[string]int{"vsymC13Field": -2}, MaxDecisions: 6000, MaxPaths: 200000, TimeoutSec: 600, NeedReach: []string{"parsed", "rejected", "end"}},
 			{Name: "VC13_CertificateTable", Params: map[string]int{"vsymC13Table": 48}, ConcAlloc: true, MaxDecisions: 4000, MaxPaths: 2000000, TimeoutSec: 600, NeedReach: []string{"end"}},
 			{Name: "VC13_NoAttributes", NeedReach: []string{"end"}},
-			{Name: "VC13_SmallDER", Params: map[string]int{"vsymC13Max": 14}, MaxDecisions: 4000, MaxPaths: 4000000, TimeoutSec: 900, NeedReach: []string{"end"}},
-			{Name: "VC13_BlobByte", Params: map[string]int{"vsymC13Stride": 16}, MaxDecisions: 4000, MaxPaths: 200000, TimeoutSec: 900, NeedReach: []string{"end"}},
+			{Name: "VC13_AttributeShapes", NeedReach: []string{"end"}},
+			{Name: "VC13_SmallDER", Params: map[string]int{"vsymC13Max": 13}, MaxDecisions: 4000, MaxPaths: 4000000, TimeoutSec: 600, NeedReach: []string{"end"}},
+			{Name: "VC13_BlobByte", Params: map[string]int{"vsymC13Stride": 16}, MaxDecisions: 4000, MaxPaths: 200000, TimeoutSec: 600, NeedReach: []string{"end"}},
 		},
 		Bounds: []string{"image: the shipped test image with one header field at a time taking every value (e_lfanew, NumberOfSections, PointerToSymbolTable, NumberOfSymbols, SizeOfOptionalHeader, Magic, SizeOfHeaders, NumberOfRvaAndSizes, certificate table address and size, and SizeOfRawData / PointerToRawData / PointerToRelocations / NumberOfRelocations of two sections), then Parse, Hash, Bytes, Signatures",
-			"certificate table walk: fully symbolic table of 0..24 (quick) / 0..48 bytes; PKCS#7: fully symbolic DER of 0..12 (quick) / 0..14 bytes, a library-produced blob with one byte (stride 64 quick / 16 thorough) taking every value, and a signer entry without signed attributes",
+			"certificate table walk: fully symbolic table of 0..24 (quick) / 0..48 bytes; PKCS#7: fully symbolic DER of 0..12 (quick) / 0..13 bytes, a library-produced blob with one byte (stride 64 quick / 16 thorough) taking every value, a signer entry without signed attributes, and DER blobs naming the verifying certificate whose signed-attributes field is absent / empty / malformed / holds an empty value set",
 			"obligations on every path: no panic, no log.Fatal/os.Exit, every byte allocation <= 8*len + 16 MiB (image) / 64 KiB (others), termination within 3000 symbolic decisions and 20M steps; violations are replayed natively (panic / exit / measured allocation above 64 MiB / time-out)"},
 		Outside:     []string{"several header fields changed at once, images other than the fixture, fully symbolic images", "Verify on mutated images (C02 covers single-byte mutants of a signed image)", "wall-clock time and resident memory as measured quantities", "longer symbolic DER"},
 		Assumptions: append([]string{"debug/pe.readCOFFSymbols reads auxiliary symbol records through an unsafe pointer cast; the model reads them into a scratch record (NewFile never uses their content)"}, commonAssumptions...),
